@@ -35,7 +35,7 @@ def configs(t):
         out.append(base(f'auto-2apps-{sfs}', [
             app('A', 1, [prog('a', 1, required=True), prog('b', 2)], sfs),
             app('B', 2, [prog('d', 1)])], phase='auto', job_kind='auto', T=4,
-            behaviours=BEH if sfs == 'ABORT' else ['run', 'backoff', 'giveup', 'exit_bad']))
+            behaviours=['run', 'backoff', 'giveup', 'exit_ok', 'exit_bad'] if sfs == 'ABORT' else ['run', 'backoff', 'giveup', 'exit_bad']))
     out.append(base('auto-waitexit', [
         app('A', 1, [prog('a', 1, wait_exit=True), prog('b', 2, required=True)]),
         app('Z', 0, [prog('z', 1)])], phase='auto', job_kind='auto', T=5))
